@@ -103,12 +103,13 @@ PROPS = {
         assumptions=BLOCK_ASSUME + ['Cosmos-lane signature verification is the SDK decorator (trusted); only its sequence effect is modelled; that an eth_secp256k1 signature binds sequence, account number and chain id in both sign modes is observed on the real VerifySignature (E-crypto) and is C19 for the rest'],
     ),
     'C13': dict(
-        lean_modules=['Model.Block', 'Properties.C05', 'Properties.C06', 'Properties.C13', 'Facts.Block'],
+        lean_modules=['Model.Block', 'Model.Bloom', 'Properties.C05', 'Properties.C06', 'Properties.C13', 'Properties.C13Bloom', 'Facts.Block'],
         facts=['*'],
         theorems=['C13_txIndex', 'C13_receipt_index', 'C13_logIndex', 'C13_cumulativeGas', 'C13_status', 'C13_contract',
-                  'C13_inv_block', 'C13_endBlock_total', 'inv_step', 'fact_log_index_restored'],
+                  'C13_inv_block', 'C13_endBlock_total', 'inv_step', 'fact_log_index_restored',
+                  'C13_bloom_exact', 'C13_bloom_covers', 'C13_bloom_union', 'C13_block_bloom_is_union', 'C13_block_bloom_bits', 'C13_block_bloom_order', 'C13_bloom_fits', 'testBit_logsBloom'],
         engines=[dict(name='block', test='TestEngineBlock', quick=500, thorough=6000, thorough_seeds=3)],
-        rule=BLOCK_RULE, assumptions=BLOCK_ASSUME + ['bloom filters are not modelled: receipt bloom = bloom(own logs) and block bloom = union are checked by the engine on the real receipts (tested, not proved)'],
+        rule=BLOCK_RULE, assumptions=BLOCK_ASSUME + ['bloom filters: the theorems (exactly the own logs, union, order-independence, 2048 bits) hold for any hash function; that the code computes the same function is the correspondence of the `bloom` lines (Lean Keccak-256 on the logs of the real receipts of every block vs the receipts\' Bloom fields and the block_bloom event), plus the Go-side oracle block-bloom'],
     ),
     'C03': dict(
         lean_modules=['Model.CDbGeneric', 'Model.World', 'Model.StateDB', 'Model.CallTree', 'Proofs.CDb', 'Properties.C03', 'Properties.C12'],
@@ -356,7 +357,7 @@ LEVEL_TEXT = {
  'C10': 'Proof over the ERC-20 precompile model (each method is exactly the bank operation; failing calls are no-ops); the allowance clause is proved only per unscoped table (known finding F5) and stated as _partial; tied by E-erc20 / E-calltree.',
  'C11': 'Thin proof + twin execution: the dispatch model fixes who acts for whom and which logs are emitted (theorems for every call and every signature input); the effect on staking / distribution / bank is compared byte for byte with the SDK message servers on every call of generated histories.',
  'C12': 'Proof over the call-tree model for STATICCALL edges, with the full statement refuted by a witness (known finding F6, defect in the pinned fork); regenerated facts: declared read-only methods reach no write API, writers charge gas; E-calltree, static probes with all-store dumps, E-staking view checks.',
- 'C13': 'Proof over the block model (tx index, log index, cumulative gas, status, bloom slots consistent for every block) + E-block on the real FinalizeBlock.',
+ 'C13': 'Proof over the block model (tx index, log index, cumulative gas, status for every block) and over a model of the bloom filter (a receipt bloom has exactly the bits of its own logs, the block bloom is the union, for any hash) + E-block on the real FinalizeBlock, blooms recomputed in Lean with Keccak-256.',
  'C14': 'Proof over the indexer model (lookups agree with positions, idempotent, restart rule) with the restart clause partial (known finding F12) + the real KVIndexer, RPC backend and indexer service over recorded blocks.',
  'C15': 'Proof over the world / StateDB models (protected accounts survive every committed operation sequence; locked coins unspendable) + E-statedb differential incl. delayed, continuous and periodic vesting accounts.',
  'C16': 'Proof over the vauth model (a stored proof is unforgeable relative to ideal recovery, final, and gates vesting creation) + E-vauth / E-ante on real blocks.',
